@@ -852,7 +852,11 @@ class Evaluator:
                     else:
                         call = payload
                         args = [self._t(a, node, restrict) for a in call.args]
-                        cur = self.ctx.mk(("mut", call.func.attr), [cur] + args)
+                        hc_ = self.ctx.head_of(cur)
+                        if self.exact and call.func.attr == "append" and len(args) == 1 and not call.keywords and hc_ == ("list",):
+                            cur = self.ctx.mk(("list",), list(self.ctx.args_of(cur)) + args)      # [a].append(b) is [a, b]
+                        else:
+                            cur = self.ctx.mk(("mut", call.func.attr), [cur] + args)
                 res = cur
                 alld = []
             for dname, how, payload in alld:
@@ -1712,7 +1716,9 @@ class Evaluator:
         c = self.ctx
         if fname.startswith("localfn:"):
             q = f"{self.func.qual}.{fname[8:]}"
-            if self.repo.is_new_function(q):
+            # (exact mode - the comparison of two forms of one function - looks through every local helper, so that a
+            # closure and the module-level function it was moved to are both their returned expression)
+            if q in self.repo.funcs and (self.repo.is_new_function(q) or self.exact):
                 res = self._inline_value(self.repo.funcs[q], pos, kws, star, parent=self, parent_at=self._cur_at)
                 if res is not None:
                     return res
@@ -1792,7 +1798,9 @@ class Evaluator:
                 if op == "neg" and len(pos) == 1:
                     return c.mk(("fneg",), (pos[0],))
                 if len(pos) == 2 and op in ("+", "-", "*", "/"):
-                    return c.mk(("fbin", {"+": "Add", "-": "Sub", "*": "Mult", "/": "Div"}[op]), (pos[0], pos[1]))
+                    if pos[0].is_const() and pos[1].is_const():
+                        return c.mk(("fbin", {"+": "Add", "-": "Sub", "*": "Mult", "/": "Div"}[op]), (pos[0], pos[1]))
+                    return self._binop({"+": ast.Add, "-": ast.Sub, "*": ast.Mult, "/": ast.Div}[op](), pos[0], pos[1])
             elif fname in ARITH_FUNCS and len(pos) in (1, 2):
                 op = ARITH_FUNCS[fname]
                 if op == "neg" and len(pos) == 1:
